@@ -340,7 +340,73 @@ func NumEdges(t any) int { return gctx(t).FieldByName("backEdges").Len() }
 
 // Footprint: under the executor every store to an object that existed at FootprintBegin is logged
 // (exact).  Natively the listed tensors are snapshotted and compared at FootprintEnd (state diff).
+// deepSig renders every field of a value (unexported ones included, pointers followed to depth 6,
+// the grad context excluded: it is compared field by field) - any hidden state a library keeps in a
+// tensor shows up here.
+func deepSig(v reflect.Value, depth int, sb *strings.Builder) {
+	if depth > 6 {
+		sb.WriteString("~")
+		return
+	}
+	switch v.Kind() {
+	case reflect.Ptr, reflect.Interface:
+		if v.IsNil() {
+			sb.WriteString("nil")
+			return
+		}
+		deepSig(v.Elem(), depth+1, sb)
+	case reflect.Struct:
+		sb.WriteString("{")
+		for i := 0; i < v.NumField(); i++ {
+			if v.Type().Field(i).Name == "gctx" {
+				continue
+			}
+			sb.WriteString(v.Type().Field(i).Name + ":")
+			deepSig(v.Field(i), depth+1, sb)
+			sb.WriteString(";")
+		}
+		sb.WriteString("}")
+	case reflect.Slice, reflect.Array:
+		if v.Kind() == reflect.Slice {
+			fmt.Fprintf(sb, "(%d/%d)", v.Len(), v.Cap())
+		}
+		sb.WriteString("[")
+		for i := 0; i < v.Len(); i++ {
+			deepSig(v.Index(i), depth+1, sb)
+			sb.WriteString(",")
+		}
+		sb.WriteString("]")
+	case reflect.Map:
+		fmt.Fprintf(sb, "map(%d)", v.Len())
+	case reflect.Float64, reflect.Float32:
+		fmt.Fprintf(sb, "%x", math.Float64bits(v.Float()))
+	case reflect.Int, reflect.Int64, reflect.Int32, reflect.Int16, reflect.Int8:
+		fmt.Fprintf(sb, "%d", v.Int())
+	case reflect.Uint, reflect.Uint64, reflect.Uint32, reflect.Uint16, reflect.Uint8, reflect.Uintptr:
+		fmt.Fprintf(sb, "%d", v.Uint())
+	case reflect.Bool:
+		fmt.Fprintf(sb, "%v", v.Bool())
+	case reflect.String:
+		sb.WriteString(v.String())
+	case reflect.Func:
+		if v.IsNil() {
+			sb.WriteString("nilfunc")
+		} else {
+			sb.WriteString("func")
+		}
+	default:
+		sb.WriteString(v.Kind().String())
+	}
+}
+
+func sigOf(t any) string {
+	var sb strings.Builder
+	deepSig(tstruct(t), 0, &sb)
+	return sb.String()
+}
+
 type snap struct {
+	sig            string
 	t              any
 	data           []float64
 	dims           []int
@@ -353,7 +419,7 @@ var snaps [][]snap
 
 func takeSnap(t any) snap {
 	g := tstruct(t).FieldByName("gctx")
-	s := snap{t: t, data: Flat(t), dims: Dims(t), gctx: g.Pointer()}
+	s := snap{t: t, sig: sigOf(t), data: Flat(t), dims: Dims(t), gctx: g.Pointer()}
 	if !g.IsNil() {
 		s.tracked, s.dirty, s.edges = Tracked(t), Dirty(t), NumEdges(t)
 		gr := g.Elem().FieldByName("gradient")
@@ -381,12 +447,24 @@ func FootprintBegin(objs ...any) {
 func FootprintEnd(allow string) int {
 	ss := snaps[len(snaps)-1]
 	snaps = snaps[:len(snaps)-1]
+	onlyMode := strings.Contains(allow, "only=")
+	if strings.Contains(allow, "=") {
+		al := ""
+		for _, part := range strings.Split(allow, ";") {
+			if k, v, _ := strings.Cut(part, "="); k == "allow" {
+				al = v
+			}
+		}
+		allow = al
+	}
 	ok := func(tag string) bool { return strings.Contains(","+allow+",", ","+tag+",") }
 	n := 0
 	for _, s := range ss {
 		now := takeSnap(s.t)
 		if !reflect.DeepEqual(now.data, s.data) || !reflect.DeepEqual(now.dims, s.dims) {
 			n++
+		} else if !onlyMode && now.sig != s.sig {
+			n++ // some other field of the tensor (hidden state) changed
 		}
 		if now.gctx != s.gctx {
 			if !ok("CPUTensor.gctx") {
